@@ -65,33 +65,34 @@ type loopInfo struct {
 
 // fx is one activation (the unit itself or an inlined callee).
 type fx struct {
-	e       *enc
-	fn      *ssa.Function
-	fc      *FuncContract
-	depth   int
-	top     bool
-	vals    map[ssa.Value]Term
-	tuples  map[ssa.Value][]Term
-	lvs     map[ssa.Value]*lval
-	clos    map[ssa.Value]*closureInfo
-	reach   map[*ssa.BasicBlock]Term
-	out     map[*ssa.BasicBlock]*State
-	edge    map[[2]int]Term
-	rets    []retInfo
-	dbg     map[ssa.Value]string
-	dbgRefs []*ssa.DebugRef
-	loops   map[*ssa.BasicBlock]*loopInfo
-	loopOrd []*loopInfo
-	ranges  map[*ssa.Range]*rangeRec
-	entry   *State
-	params  map[string]TV
-	tag     string // suffix for obligations of inlined activations
-	locals  []Term // refs of non-escaped local allocations
-	escaped map[ssa.Value]bool
-	defers  []*ssa.Defer
-	cur     *State
+	e        *enc
+	fn       *ssa.Function
+	fc       *FuncContract
+	depth    int
+	top      bool
+	vals     map[ssa.Value]Term
+	guarded  map[ssa.Value]*guardedVal
+	tuples   map[ssa.Value][]Term
+	lvs      map[ssa.Value]*lval
+	clos     map[ssa.Value]*closureInfo
+	reach    map[*ssa.BasicBlock]Term
+	out      map[*ssa.BasicBlock]*State
+	edge     map[[2]int]Term
+	rets     []retInfo
+	dbg      map[ssa.Value]string
+	dbgRefs  []*ssa.DebugRef
+	loops    map[*ssa.BasicBlock]*loopInfo
+	loopOrd  []*loopInfo
+	ranges   map[*ssa.Range]*rangeRec
+	entry    *State
+	params   map[string]TV
+	tag      string // suffix for obligations of inlined activations
+	locals   []Term // refs of non-escaped local allocations
+	escaped  map[ssa.Value]bool
+	defers   []*ssa.Defer
+	cur      *State
 	curReach Term
-	callLog map[string]int
+	callLog  map[string]int
 }
 
 func (e *enc) newFx(fn *ssa.Function, depth int) *fx {
